@@ -241,6 +241,8 @@ def k1_scan(ctx, repo):
     if len(table) != len(rows):
         run.broken("K1 site table", "duplicate rows in Model/Nondet.v site_table")
     sites = c10_scan.scan_repo(repo)
+    deriver, derived = c10_scan.scan_repo_full(repo)
+    via = {tuple(k): tuple(v) for k, v in model.call("C10", [Sym("downstream")])}
     counts = c10_scan.key_counts(sites)
     run.extra["scan_sites"] = len(sites)
     run.extra["scan_distinct_keys"] = len(counts)
@@ -258,6 +260,27 @@ def k1_scan(ctx, repo):
         allowed = CTX_SINK.get(key[2])
         if allowed is not None and sink not in allowed:
             run.broken("K1 site table", f"row {key} has sink {sink} but the scan sees context {key[2]}")
+        # the sink DERIVED by the scan's data-flow must be the row's; where the data-flow gives up, the row must
+        # name a downstream expression and the scan must find it
+        dsink, why = derived.get(key, (None, ""))
+        if dsink is not None:
+            run.dist("derived_sink", dsink)
+            if dsink == "unknown":
+                d = via.get(key)
+                if d is None or not c10_scan.find_expression(deriver, d[0], d[1], d[2]):
+                    run.violation(
+                        f"K1 derived sink: ariadne_codegen/{key[0]}:{lines[0]} {key[1]}: {key[2]} {key[3]} — the scan cannot "
+                        f"derive what this iteration order reaches ({why}) and " + (
+                            f"the downstream expression {d[2]!r} is no longer in {d[0]}::{d[1]}" if d else
+                            "the model names no downstream expression for it"),
+                        {"stage": "K1 derived sink", "site": list(key), "lines": lines, "why": why, "downstream": list(d) if d else None},
+                        found_input=False)
+                else:
+                    run.dist("derived_sink", "unknown-but-downstream-found")
+            elif dsink != sink:
+                run.violation(
+                    f"K1 derived sink: ariadne_codegen/{key[0]}:{lines[0]} {key[1]}: {key[2]} {key[3]} — the table says {sink}, the scan derives {dsink} ({why})",
+                    {"stage": "K1 derived sink", "site": list(key), "table": sink, "derived": dsink, "why": why}, found_input=False)
     for s in new:
         run.violation(
             f"K1 new unordered-collection site not in the model's site table: {s['file']}:{s['lines'][0]} "
